@@ -69,7 +69,9 @@ class watchdog:
 #  C40 - OpsResource.tla
 # =================================================================================================
 C40_OPS = ["using", "finally_action", "do_finally", "do_action", "do_observer", "do_after_next",
-           "do_on_subscribe", "do_on_dispose", "do_on_terminate", "do_after_terminate"]
+           "do_on_subscribe", "do_on_dispose", "do_on_terminate", "do_after_terminate",
+           "do_action_n", "do_action_ec", "do_action_0"]
+DO_ACTION_GIVEN = {"do_action": ("next", "error", "completed"), "do_action_n": ("next",), "do_action_ec": ("error", "completed"), "do_action_0": ()}
 C40_INVS = ["Grammar", "ResourceDisposedExactlyOnce", "ResourceDisposedAtClose", "OneResourcePerSubscription",
             "FinallyExactlyOnce", "FinallyAfterTerminal", "Silent", "Released", "Causal", "RefOK", "DoIsTransparent", "Resub"]
 
@@ -168,8 +170,13 @@ def _build(run: Run40, xs, vals):
         return xs.finally_action(fin) if fluent else xs.pipe(ops.finally_action(fin))
     if op == "do_finally":
         return _do.do_finally(fin)(xs) if run.variant.get("form") == "direct" else xs.pipe(_do.do_finally(fin))
-    if op == "do_action":
-        cbs = (counted("next", True), counted("error", False), counted("completed", False))
+    if op in DO_ACTION_GIVEN:
+        given = DO_ACTION_GIVEN[op]
+        cbs = (counted("next", True) if "next" in given else None, counted("error", False) if "error" in given else None,
+               counted("completed", False) if "completed" in given else None)
+        if run.variant.get("form") == "kw":     # only the given ones, by keyword
+            kw = {"on_" + n: c for n, c in zip(("next", "error", "completed"), cbs) if c is not None}
+            return xs.pipe(ops.do_action(**kw))
         return xs.do_action(*cbs) if fluent else xs.pipe(ops.do_action(*cbs))
     if op == "do_observer":
         class Tap(abc.ObserverBase):
@@ -528,6 +535,8 @@ def variants40(scn, tier, k):
     # second clock kind + a source that lives on the scheduler handed down by subscribe()
     out.append(dict(base, kind="dcold", tmap="spread", dmode="tie", clock="hist", profile="falsy", salt=(h + 2) % 8))
     out.append(dict(base, kind="dcold", tmap="same", dmode="inside", clock="test", form="fluent"))
+    if scn["op"] in ("do_action_n", "do_action_ec", "do_action_0"):
+        out.append(dict(base, kind="cold", tmap="spread", dmode="tie", form="kw"))
     if scn["ns"] == 2:
         out.append(dict(base, kind="cold", tmap="spread", dmode="tie", stagger=7))
         out.append(dict(base, kind="cold", tmap="spread", dmode="inside", stagger=1000))
@@ -674,14 +683,17 @@ def perform_ff(scn, variant):
                 return await inner
             fut = loop.create_task(waiter())
             _loop_step(loop)
-        if cfg["mode"] == "from_future":
-            xs = reactivex.from_future(fut)
-        elif cfg["mode"] == "start_async":
-            xs = reactivex.start_async(lambda: fut)
-        else:
-            def boom():
-                raise fa_err
-            xs = reactivex.start_async(boom)
+        try:
+            if cfg["mode"] == "from_future":
+                xs = reactivex.from_future(fut)
+            elif cfg["mode"] == "start_async":
+                xs = reactivex.start_async(lambda: fut)
+            else:
+                def boom():
+                    raise fa_err
+                xs = reactivex.start_async(boom)
+        except Exception as e:     # building the observable raised: an observation, not a harness failure
+            return {"snaps": [], "raised": [-1, type(e).__name__], "vals": vals, "fut_err": fut_err, "fa_err": fa_err}
         recs: Dict[int, Rec] = {}
         disp: Dict[int, Any] = {}
         snaps = []
@@ -772,7 +784,8 @@ def _outs_match(exp_out, got_out, ctx, nsubs) -> Optional[str]:
 
 def compare_ff(scn, exp, got) -> Optional[str]:
     if got["raised"]:
-        return f"raised:{got['raised'][1]}@{scn['hist'][got['raised'][0]]['c']}"
+        pos = got["raised"][0]
+        return f"raised:{got['raised'][1]}@{scn['hist'][pos]['c'] if pos >= 0 else 'building the observable'}"
     for p, (es, gs) in enumerate(zip(exp["snaps"], got["snaps"])):
         if es["fst"] != gs["fst"]:
             return f"future_state:{gs['fst']}!={es['fst']}@{p}:{scn['hist'][p]['c']}"
